@@ -514,7 +514,9 @@ def gen_viewport() -> tuple[str, dict]:
         axis = t.comparators[0].value
         for st in n.body:
             for js in [x for x in ast.walk(st) if isinstance(x, ast.JoinedStr)]:
-                m = re.search(r'"position" "\((.*?)\)"', template(js))
+                tpl = template(js)
+                # the line itself, or a local holding the parenthesised triple that a later "position" line interpolates
+                m = re.search(r'"position" "\((.*?)\)"', tpl) or re.fullmatch(r'\(([^()]* [^()]* [^()]*)\)', tpl)
                 if m:
                     parts = m.group(1).split(' ')
                     if len(parts) != 3 or axis in tbl:
